@@ -343,6 +343,27 @@ detach(struct bitstream bs)
 }
 
 
+/* Drop a retrieve job's reference to its unord block.  If the parser has
+   already dequeued (and thereby disowned) the block, nobody else references it
+   any more, so free it.  Otherwise it is still in unord_q and behind or at the
+   parser's future position; mark it complete so that the parser releases it
+   when it dequeues it. */
+static void
+release_unord(struct retr_blk *rb)
+{
+  struct unord_blk *ub = rb->unord_link;
+
+  if (ub == NULL)
+    return;
+  if (ub->complete)
+    free(ub);
+  else {
+    ub->complete = true;
+    ub->legitimate = false;
+  }
+}
+
+
 /* Release any input blocks that are behind current base position. */
 static void
 advance(struct detached_bitstream bs)
@@ -371,6 +392,7 @@ advance(struct detached_bitstream bs)
     Trace(("Advanced over miss-recognized bit pattern at {%u}",
            nbsx2(rb->base)));
 
+    release_unord(rb);
     decoder_free(&rb->ds);
     free(rb);
     work_units++;
@@ -456,6 +478,7 @@ do_parse(void)
       Trace(("Parser discovered a bit pattern beyond EOF at {%u}",
              nbsx2(rb->base)));
 
+      release_unord(rb);
       decoder_free(&rb->ds);
       free(rb);
       work_units++;
@@ -565,6 +588,7 @@ do_retrieve(void)
   rb->curr_pos = detach(true_bitstream);
 
   if (parsing_done) {
+    release_unord(rb);
     decoder_free(&rb->ds);
     free(rb);
     work_units++;
@@ -579,6 +603,7 @@ do_retrieve(void)
        abort this retrieve job. */
     Trace(("Retriever found himself redundand"));
     work_units++;
+    release_unord(rb);
     decoder_free(&rb->ds);
     free(rb);
     check_invariants();
